@@ -218,7 +218,7 @@ func c18StructureOff(body []byte) (seq []string, injected []string, nesting stri
 
 func c18N(tier string) int {
 	if tier == "thorough" {
-		return 1500
+		return 4000
 	}
 	return 60
 }
@@ -467,4 +467,3 @@ func c18Run(c *fw.Ctx, i int) {
 		c.Sample("document", map[string]interface{}{"taint_tokens": len(tn.kinds), "reached_a_page": len(reached), "example_value": tn.val("example"), "gedcom": clip(tainted, 400)})
 	}
 }
-
